@@ -418,6 +418,106 @@ impl<'a> Tr<'a> {
                 }
             }
         }
+        // builtin: `<iterator>.fold(init, |acc, item| body)` on a value whose type has a configured `Iterator::next`
+        if let Expr::MethodCall(m) = e {
+            if m.method == "fold" && m.args.len() == 2 && matches!(&m.args[1], Expr::Closure(c) if c.inputs.len() == 2) {
+                let cl = match &m.args[1] {
+                    Expr::Closure(c) => c.clone(),
+                    _ => unreachable!(),
+                };
+                let init_e = m.args[0].clone();
+                // `slice.iter()[.map(|x| f)].fold(init, |acc, x| g)`: a pure List.fold_left
+                {
+                    let mut inner: &Expr = &m.receiver;
+                    let mut mapc: Option<&ExprClosure> = None;
+                    if let Expr::MethodCall(mm) = inner {
+                        if mm.method == "map" && mm.args.len() == 1 {
+                            if let Expr::Closure(c) = &mm.args[0] {
+                                if c.inputs.len() == 1 {
+                                    mapc = Some(c);
+                                    inner = &mm.receiver;
+                                }
+                            }
+                        }
+                    }
+                    if let Expr::MethodCall(it) = inner {
+                        if it.method == "iter" && it.args.is_empty() {
+                            if let Ok(sv) = self.pure(&it.receiver, env, None) {
+                                if let Ty::Slice(et) = &sv.ty {
+                                    let et = (**et).clone();
+                                    let init = self.pure(&init_e, env, None)?;
+                                    let mut lets = String::new();
+                                    let item: Val = match mapc {
+                                        Some(c) => {
+                                            let mut envm = env.clone();
+                                            let pm = self.bind_pat(&c.inputs[0], &et, &mut envm)?;
+                                            lets.push_str(&format!("let '{} := x_ in ", pm));
+                                            self.pure(&c.body, &envm, None)?
+                                        }
+                                        None => Val { s: "x_".into(), ty: et.clone() },
+                                    };
+                                    let mut envf = env.clone();
+                                    let pa = self.bind_pat(&cl.inputs[0], &init.ty, &mut envf)?;
+                                    let pi = self.bind_pat(&cl.inputs[1], &item.ty, &mut envf)?;
+                                    let body = self.pure(&cl.body, &envf, Some(&init.ty))?;
+                                    let acc_ty = join(&init.ty, &body.ty).map_err(|m| unsupported(e, &m))?;
+                                    let v = Val { s: format!("(fold_left (fun acc_ x_ => {}let '{} := {} in let '{} := acc_ in {}) {} {})", lets, pi, item.s, pa, body.s, sv.s, init.s), ty: acc_ty };
+                                    return k(self, v).map(Some);
+                                }
+                            }
+                        }
+                    }
+                }
+                let s = self.expr_k(&m.receiver, env, None, &|tr, recv| {
+                    let n = match &recv.ty {
+                        Ty::Adt(n) => n.clone(),
+                        t => return Err(unsupported(e, &format!("`fold` on a value of type {} (only a type with a configured `Iterator::next`)", t.show()))),
+                    };
+                    let nf: Vec<FnInfo> = tr.find_fns(Some(&n), "next").into_iter().filter(|f| f.self_kind == SelfKind::Mut && f.params.is_empty() && !f.has_mut_params()).collect();
+                    if nf.len() != 1 {
+                        return Err(unsupported(e, &format!("`fold` on `{}`, which has no configured `Iterator::next`", n)));
+                    }
+                    let f = nf[0].clone();
+                    let item = match &f.ret {
+                        Ty::Option(t) => (**t).clone(),
+                        _ => return Err(unsupported(e, "`fold` on a type whose `next` does not return Option")),
+                    };
+                    if !tr.fuel {
+                        tr.needs_fuel = true;
+                        return Err(unsupported(e, "`fold` over an iterator (retry with fuel)"));
+                    }
+                    let init = tr.pure(&init_e, env, None)?;
+                    // the closure: a pure function of (accumulator, item)
+                    let mut env2 = env.clone();
+                    let pa = tr.bind_pat(&cl.inputs[0], &init.ty, &mut env2)?;
+                    let pi = tr.bind_pat(&cl.inputs[1], &item, &mut env2)?;
+                    let body = tr.pure(&cl.body, &env2, Some(&init.ty))?;
+                    let acc_ty = join(&init.ty, &body.ty).map_err(|m| unsupported(e, &m))?;
+                    tr.loop_counter += 1;
+                    let id = format!("{}_fold{}", tr.fn_coq, tr.loop_counter);
+                    let st = tr.t.coq_ty(&recv.ty)?;
+                    let it = tr.t.coq_ty(&item)?;
+                    let at = tr.t.coq_ty(&acc_ty)?;
+                    let (fn_binder, fn_arg, call_next) = if f.fuel {
+                        let outer = match tr.t.fuel_consts.get(&f.key) {
+                            Some(c) => c.clone(),
+                            None => tr.fuel_var.clone(),
+                        };
+                        (" (fn_ : nat)".to_string(), format!(" {}", outer), format!("match {} fn_ it_ with\n| None => None\n| Some (_, None) => Some acc_\n| Some (it1_, Some v_) => {} fuel_ fn_ step_ it1_ (step_ acc_ v_)\nend", f.coq, id))
+                    } else {
+                        (String::new(), String::new(), format!("match {} it_ with\n| (_, None) => Some acc_\n| (it1_, Some v_) => {} fuel_ step_ it1_ (step_ acc_ v_)\nend", f.coq, id))
+                    };
+                    tr.aux_defs.push(format!(
+                        "Fixpoint {id} (fuel0_ : nat){fb} (step_ : {at} -> {it} -> {at}) (it_ : {st}) (acc_ : {at}) {{struct fuel0_}} : option {at} :=\nmatch fuel0_ with\n| O => None\n| Datatypes.S fuel_ =>\n{step}\nend.",
+                        id = id, fb = fn_binder, at = at, it = it, st = st, step = call_next
+                    ));
+                    let r = tr.fresh("fld");
+                    let rest = k(tr, Val { s: r.clone(), ty: acc_ty })?;
+                    Ok(format!("match {} {}{} (fun acc_ item_ => let '{} := acc_ in let '{} := item_ in {}) {} {} with\n| Some {} =>\n{}\n| None => None\nend", id, tr.fuel_var, fn_arg, pa, pi, body.s, recv.s, init.s, r, rest))
+                })?;
+                return Ok(Some(s));
+            }
+        }
         // builtin: `it.last()` on a value whose type has a configured `Iterator::next`: a driver over fuel
         if let Expr::MethodCall(m) = e {
             if m.method == "last" && m.args.is_empty() {
@@ -529,6 +629,7 @@ impl<'a> Tr<'a> {
                 writebacks.push(tgt);
             } else {
                 let v = self.pure(x, env, Some(pt))?;
+                let v = crate::calls::coerce_array_to_slice(v, pt);
                 join(&v.ty, pt).map_err(|m| unsupported(e, &format!("argument of `{}`: {}", f.key, m)))?;
                 a.push(v.s);
             }
